@@ -135,6 +135,10 @@ def random_part(case, res):
                 break
         # plotly rows: index k -> init + k * unit
         init = datetime.datetime(2020 + rng.randint(0, 3), rng.randint(1, 12), rng.randint(1, 28), rng.randint(0, 23), 0, 0)
+        if rng.random() < 0.3:
+            # charts that span a daylight-saving switch (last Sunday of March / October)
+            init = rng.choice([datetime.datetime(2024, 3, 30, 20, 0, 0), datetime.datetime(2024, 3, 31, 1, 30, 0),
+                               datetime.datetime(2024, 10, 26, 22, 0, 0), datetime.datetime(2023, 3, 25, 12, 0, 0)])
         unit = rng.choice([datetime.timedelta(minutes=1), datetime.timedelta(hours=1), datetime.timedelta(days=1), datetime.timedelta(minutes=90), datetime.timedelta(days=7)])
         if kind in ("task", "component"):
             view_ready = rng.random() < 0.5
@@ -378,6 +382,16 @@ def simlogs_part(case, res):
 
 
 def run_case(case):
+    from .common import local_timezone
+    tz = local_timezone.DST if case["i"] % 5 == 1 else None
+    with local_timezone(tz):
+        res = _run_case(case)
+        if tz:
+            res.count("C19.cases_under_a_daylight_saving_time_zone")
+    return res
+
+
+def _run_case(case):
     res = Result(case)
     res["source"] = case["kind"]
     if case["kind"] == "exhaustive":
